@@ -1,7 +1,7 @@
 (* Assemble.v — instantiates the Section hypotheses of the checker proofs with the
    lemmas proved in the other files.  No new reasoning here. *)
 From PMC Require Import Spec.Lemmas.
-From PMC Require Proofs.GraphP Proofs.SccP Proofs.InfPath Proofs.RewriteP Proofs.CTLP.
+From PMC Require Proofs.GraphP Proofs.SccP Proofs.InfPath Proofs.RewriteP Proofs.CTLP Proofs.LTLP.
 
 Definition ctl_exact : C01_stmt :=
   PMC.Proofs.CTLP.C01_exact
@@ -9,3 +9,8 @@ Definition ctl_exact : C01_stmt :=
     PMC.Proofs.GraphP.subgraph_spec PMC.Proofs.GraphP.add_node_spec
     PMC.Proofs.GraphP.add_edge_silent_spec PMC.Proofs.SccP.scc_correct PMC.Proofs.InfPath.gba
     PMC.Proofs.RewriteP.restrict_ctl_spec.
+
+Definition ltl_exact : C02_stmt :=
+  PMC.Proofs.LTLP.C02_exact
+    PMC.Proofs.GraphP.reach_exact PMC.Proofs.GraphP.reversed_spec PMC.Proofs.SccP.scc_correct
+    PMC.Proofs.InfPath.gba PMC.Proofs.RewriteP.LNot_sem PMC.Proofs.RewriteP.restrict_sem.
